@@ -13,7 +13,7 @@
        Comp.Types and Comp.Binds, not the objects.
    Definitions only, no proofs. *)
 From Coq Require Import List ZArith Bool.
-From Verif Require Import C14.Model.
+From Verif Require Import C14.Model C15.Code.
 Import ListNotations.
 Open Scope Z_scope.
 
@@ -171,9 +171,11 @@ Fixpoint thistory_match (s : tst) (h : list (list decl)) (os : list tobs) : bool
 Record case := mkCase15 {
   k_idx : Z;
   k_hist : list (list stmt); k_obs : list obs;        (* bind table part, replayed by Verif.C14.Model *)
-  k_thist : list (list decl); k_tobs : list tobs      (* type registry part *)
+  k_thist : list (list decl); k_tobs : list tobs;     (* type registry part *)
+  k_chist : list (list cdecl)                         (* code buffer part (Code.v): ok flag and hook counter of k_tobs, after every input *)
 }.
 
 Definition mismatches (cs : list case) : list Z :=
   flat_map (fun c => if history_match false state0 (k_hist c) (k_obs c) && thistory_match tst0 (k_thist c) (k_tobs c)
+                        && chistory_match 0 cst0 (k_chist c) (map (fun o => (to_ok o, to_ran o)) (k_tobs c))
                      then [] else [k_idx c]) cs.
